@@ -860,6 +860,16 @@ val needs_kind : n list -> bool
 
 val expectation_line : mode -> n list -> text
 
+val x29 : n list
+
+val guard_noeol : text -> text
+
+val written_line : mode -> n list -> text
+
+val guarded_line : bool -> bool -> mode -> n list -> text
+
+val guarded_lines : bool -> mode -> n list list -> text list
+
 val rule_matches : rule -> n list -> bool
 
 val has_command : (nat * text) list -> bool
@@ -1504,6 +1514,10 @@ val gen_cram_doc :
   mode -> n list option -> n list -> n list list -> n list list -> n -> block
   list
 
+val gen_cram_doc_g :
+  mode -> n list option -> n list -> n list list -> n list list -> n -> block
+  list
+
 val gen_body : mode -> n list list -> n -> bline list
 
 val md_block_text : n list -> n list list -> bline list -> n list list
@@ -1512,6 +1526,12 @@ val gen_md_doc :
   mode -> n list option -> n list -> n list list -> n list list -> n -> elem
   list
 
+val gen_body_g : mode -> n list list -> n -> bline list
+
+val gen_md_doc_g :
+  mode -> n list option -> n list option -> n list -> n list list -> n list
+  list -> n -> elem list
+
 type gtest = { g_title : n list option; g_cmd : n list;
                g_conts : n list list; g_lines : n list list; g_code : 
                n }
@@ -1519,6 +1539,14 @@ type gtest = { g_title : n list option; g_cmd : n list;
 val gen_cram_one : mode -> gtest -> block list
 
 val gen_cram_docs : mode -> gtest list -> block list
+
+val gen_cram_one_g : mode -> gtest -> block list
+
+val gen_cram_docs_g : mode -> gtest list -> block list
+
+val gen_md_one_g : mode -> n list option -> gtest -> elem list
+
+val gen_md_docs_g : mode -> n list option -> gtest list -> elem list
 
 val gen_md_one : mode -> n list option -> gtest -> elem list
 
